@@ -33,7 +33,7 @@ func (p *propC11) ID() string     { return "C11" }
 func (p *propC11) Engine() string { return "rx" }
 func (p *propC11) Level() string  { return "fault_enumeration" }
 func (p *propC11) Rule() string {
-	return "enumeration: for every stream of the pool (single frames and chains of 2-3 frames) x every entry point x fault kind (cut.eof, cut.eof+data, fail.sticky, fail.with_data) x read policy (full, short k7, one) x every byte offset k in [0,len] (quick: every offset of frames <= 8 KiB; thorough: every offset <= 32 KiB, structural + 4096-multiples + 2000 seeded offsets above); " +
+	return "enumeration: for every stream of the pool (single frames and chains of 2-3 frames) x every entry point x fault kind (cut.eof, cut.eof+data, fail.sticky, fail.with_data) x read policy (full, short k7, one) x every byte offset k in [0,len] (quick: every offset of frames <= 8 KiB; thorough: frames up to 60 KB, every offset of frames <= 32 KiB, structural + 4096-multiples + 2000 seeded offsets above); " +
 		"key = (entry point, fault kind, structural class of k, policy); non-trivial when the reader actually reached k"
 }
 func (p *propC11) Assumptions() []string {
@@ -62,7 +62,7 @@ func (p *propC11) Prepare(seed uint64, tier string) int {
 	nModel := 10
 	if isThorough(tier) {
 		maxAll = 32768
-		maxCorpus = 150000
+		maxCorpus = 60000
 		nModel = 40
 	}
 	var singles []poolEntry
@@ -187,15 +187,17 @@ func (p *propC11) locate(idx int) (si, ci, ki, pi, oi int) {
 		}
 		lo = p.cum[si]
 	}
+	// offset-major inside a stream: the 72 (call, kind, plan) variants of one
+	// offset are neighbours, so the prefix decode for "records complete before k"
+	// is needed by consecutive scenarios and a tiny cache suffices
 	x := idx - lo
-	no := len(p.offsets[si])
-	oi = x % no
-	x /= no
 	pi = x % len(c11Plans)
 	x /= len(c11Plans)
 	ki = x % len(c11Kinds)
 	x /= len(c11Kinds)
 	ci = x % len(c11Calls)
+	x /= len(c11Calls)
+	oi = x % len(p.offsets[si])
 	return
 }
 
@@ -306,6 +308,9 @@ func (p *propC11) Check(sc *Scenario, st *Stats) []Violation {
 	bkey := hexs([]byte(sc.Params["stream"])) + "|" + t.Call + "|" + pc + "|" + itoa(len(m0))
 	base := p.baseCache[bkey]
 	if base == nil || sc.Params["stream"] == "" {
+		if len(p.baseCache) > 40 {
+			p.baseCache = map[string]*Result{} // baselines of big streams are large: keep few
+		}
 		bt := *t
 		bt.Read.Cut, bt.Read.Fail = nil, nil
 		base = runTask(&bt, media, nil, nil)
@@ -520,6 +525,9 @@ func (p *propC11) prefixDump(name string, m0 []byte, fr *Frame, fi, nrec int) []
 	r := runTask(t, map[string][]byte{"p": b}, nil, nil)
 	if r.Panic != "" {
 		return nil
+	}
+	if len(p.prefixCache) > 8 {
+		p.prefixCache = map[string][]string{}
 	}
 	p.prefixCache[key] = r.Dump
 	return r.Dump
